@@ -57,7 +57,8 @@ Fs(s, n, hyb) ==
 \* one fresh ElGamal random per fresh secret: r_s = G(S_s)
 Enc(s, n, hyb) ==
     [tag |-> J(Sec(s), HU(HT(Traps(s), Es(s, n, hyb), hyb), Fs(s, n, hyb))),
-     c |-> Traps(s), h |-> hyb, es |-> Es(s, n, hyb), fs |-> Fs(s, n, hyb)]
+     c |-> Traps(s), h |-> hyb, es |-> Es(s, n, hyb), fs |-> Fs(s, n, hyb),
+     trail |-> FALSE]     \* trail: bytes left over after the announced elements (the deserializer refuses them)
 
 (***************************************************************************)
 (* Symbolic decapsulation by a key holding secret identifier k (0: none).  *)
@@ -75,7 +76,7 @@ TryEntry(enc, k, j) ==
     IN IF s # 0 /\ J(Sec(s), HU(t, enc.fs)) = enc.tag /\ Traps(s) = enc.c    \* tag, then Fujisaki-Okamoto
        THEN s ELSE 0
 Decaps(enc, k) ==
-    IF k = 0 \/ Len(enc.es) # Len(enc.fs) THEN 0
+    IF k = 0 \/ Len(enc.es) # Len(enc.fs) \/ enc.trail THEN 0
     ELSE LET hits == {TryEntry(enc, k, j) : j \in 1..Len(enc.fs)} \ {0}
          IN IF hits = {} THEN 0 ELSE CHOOSE s \in hits : TRUE
 
@@ -137,11 +138,11 @@ Act(x, enc, other) ==
       [] x.a = "count_traps" -> IF x.d = "up"
                                 THEN [enc EXCEPT !.c = @ \o <<Junk(List(@))>>,
                                                  !.es = [j \in 1..Len(@) |-> Junk(@[j])], !.fs = [j \in 1..Len(@) |-> Junk(@[j])]]
-                                ELSE [enc EXCEPT !.c = SubSeq(@, 1, Len(@) - 1),
+                                ELSE [enc EXCEPT !.c = SubSeq(@, 1, Len(@) - 1), !.trail = TRUE,
                                                  !.es = [j \in 1..Len(@) |-> Junk(@[j])], !.fs = [j \in 1..Len(@) |-> Junk(@[j])]]
       \* more entries announced than present (read beyond the end), or fewer (trailing bytes / a shorter list)
       [] x.a = "count_entries" -> IF x.d = "down"
-                                  THEN [enc EXCEPT !.es = SubSeq(@, 1, Len(@) - 1), !.fs = SubSeq(@, 1, Len(@) - 1)]
+                                  THEN [enc EXCEPT !.es = SubSeq(@, 1, Len(@) - 1), !.fs = SubSeq(@, 1, Len(@) - 1), !.trail = TRUE]
                                   ELSE [enc EXCEPT !.es = @ \o <<Junk(<<x.d>>)>>, !.fs = @ \o <<Junk(<<x.d>>)>>]
       [] x.a = "flip_flavour" -> [enc EXCEPT !.h = ~@, !.es = [j \in 1..Len(@) |-> Junk(@[j])],
                                              !.fs = [j \in 1..Len(@) |-> Junk(@[j])]]
